@@ -1505,15 +1505,21 @@ int main(int argc, char** argv)
     "BCSR<2,3>: every block pattern of 1..2 x 1..2 blocks plus entry-free 3x5 blocks; DenseMatrix: every shape 1..3 x 1..3); inside a case a BFS over "
     "operation chains (convert between CSR{d,f}x{u64,u32}/Banded/CSCR/BCSR/Dense nodes, clone in 5 modes, transpose, permute with all "
     "P,Q in S_m x S_n, ctor/operator= from layout(), ctor from rendered Graph, CSCR(csr,mirror)) deduplicated on the implementation state "
-    "(type node, _scalar_index, all raw arrays). Non-trivial case = start matrix with at least one stored entry; hashed by (node, m, n, pattern).";
-  spec.bounds_quick = "chains up to depth 3 from every start state; all permutations for dimensions <= 3";
-  spec.bounds_thorough = "chains up to depth 4; additionally all CSR patterns of shapes 3x4, 4x3 (depth 2) and BCSR 2x3/3x2 block patterns";
+    "(type node, _scalar_index, _scalar_dt, _foreign_memory, all raw arrays). Per expanded state additionally: cross-type clones, a relatives/target-reuse phase "
+    "(every target-writing op into existing targets that are Weak/Layout/layout() relatives of bystanders, repeated on the already filled target; in-place ops "
+    "with live relatives), and a derived-objects phase (core op set on Weak/Shallow/Deep clones, move-constructed/-assigned copies, same-type convert, "
+    "convert-and-back, with the source alive). Value alphabets: exact dyadics for all patterns; special values (0, -0, +-1, 1e30, -1e-30, 0.1, 3e38, 1e-40, -1/3) and "
+    "all-negative values on 3 patterns per shape. Non-trivial case = start matrix with at least one stored entry; hashed by (node, m, n, pattern, alphabet).";
+  spec.bounds_quick = "chains up to depth 3 from every start state; all permutations for dimensions <= 3; derived-objects phase for states up to depth 1";
+  spec.bounds_thorough = "chains up to depth 4; additionally all CSR patterns of shapes 3x4, 4x3 (depth 2) and BCSR 2x3/3x2 block patterns; derived-objects phase for states up to depth 2";
   spec.assumptions = {
-    "reference model: dense value matrix + stored-pattern matrix with op semantics written in the harness (identity / transpose / B(i,j)=A(p(i),q(j)) with p,q the permute-position arrays / band closure for CSR->Banded); exact dyadic values so double<->float is lossless",
+    "reference model: dense value matrix + stored-pattern matrix with op semantics written in the harness (identity / transpose / B(i,j)=A(p(i),q(j)) with p,q the permute-position arrays / band closure for CSR->Banded); exact dyadic values so double<->float is lossless; for the special alphabet the reference rounds values to float exactly where a float container holds them",
+    "MemoryPool bookkeeping: every array of a result must be registered with one reference per holding container and the rounded byte size; the pool must be empty after each state's containers are destroyed",
+    "alternate transitions use the by-value overloads x.transpose()/x.clone(mode) and the converting constructor, and call operator() as the first access before any raw array is read",
     "excluded (asserted preconditions): Banded::convert(CSR) and generic convert(MT_) of an entry-free matrix, CSCR(csr,mirror) with an empty mirror; operator()(i,j) is not called on entry-free CSR/BCSR (no arrays)",
     "values after clone(Layout/Allocate) and ctor(layout) are undefined by contract: only layout, dimensions and aliasing are compared, the state is not expanded",
     "Banded padding entries outside the matrix are ignored",
-    "operations on entry-free matrices (and CSCR->CSR with unused rows) are first executed in a forked child so that a crash is reported with a specific key instead of killing the search"
+    "operations on entry-free matrices are first executed in a forked child so that a crash is reported with a specific key instead of killing the search"
   };
   spec.max_fail_per_worker = 100000;
   if(std::getenv("VERIF_MAX_REPORT")) spec.max_report = size_t(atol(std::getenv("VERIF_MAX_REPORT")));
